@@ -95,6 +95,132 @@ func runC06(c *Check) {
 	c.filterOrder(applyFocus)
 	c.perLocationFilters(byName)
 	c.tagKeySplit(compileTag)
+	c.selectOnOriginalStack(byName)
+	c.rangeComparesScaledValues()
+}
+
+// selectOnOriginalStack (R5b): whether a sample is kept is decided on the stack it came
+// with: focusedAndNotIgnored receives the sample's own Location field (not a list from
+// which hidden frames were already removed), and is evaluated before that field is
+// re-assigned in the same iteration.
+func (c *Check) selectOnOriginalStack(byName *ssa.Function) {
+	p := c.P
+	n := 0
+	for _, b := range byName.Blocks {
+		for _, ins := range b.Instrs {
+			call, ok := ins.(*ssa.Call)
+			if !ok || call.Call.StaticCallee() == nil || call.Call.StaticCallee().Name() != "focusedAndNotIgnored" {
+				continue
+			}
+			n++
+			key := "select-on-original"
+			arg := call.Call.Args[0]
+			ld, isLoad := arg.(*ssa.UnOp)
+			var fa *ssa.FieldAddr
+			if isLoad && ld.Op == token.MUL {
+				fa, _ = ld.X.(*ssa.FieldAddr)
+			}
+			if fa == nil {
+				c.bad("C06-R5", key, p.relFile(call.Pos()), "FilterSamplesByName decides whether a sample is kept on "+describeValue(arg)+" instead of the sample's own Location list: when hide/show removed a whole location first, focus drops samples it should keep and ignore keeps samples it should drop")
+				continue
+			}
+			if T, F := fieldOf(fa.X.Type(), fa.Field); T != "profile.Sample" || F != "Location" {
+				c.bad("C06-R5", key, p.relFile(call.Pos()), "focusedAndNotIgnored is not given Sample.Location")
+				continue
+			}
+			// no store to that field reaches the call within the iteration
+			var hdr *ssa.BasicBlock
+			for d := b; d != nil && hdr == nil; d = d.Idom() {
+				for _, pred := range d.Preds {
+					if d.Dominates(pred) && naturalLoop(d)[b] {
+						hdr = d
+					}
+				}
+			}
+			bad := ""
+			for _, b2 := range byName.Blocks {
+				for _, i2 := range b2.Instrs {
+					st, ok := i2.(*ssa.Store)
+					if !ok {
+						continue
+					}
+					fa2, ok := st.Addr.(*ssa.FieldAddr)
+					if !ok || fa2.Field != fa.Field || !sameNode(fa2.X, fa.X) {
+						continue
+					}
+					if b2 == b && instrIndex(st) < instrIndex(call) || b2 != b && hdr != nil && blockReachesAvoid(b2, b, hdr) {
+						bad = p.relFile(st.Pos())
+					}
+				}
+			}
+			if bad == "" {
+				c.ok("C06-R5", key, p.relFile(call.Pos()), "samples are selected on their original stacks", "focusedAndNotIgnored reads Sample.Location before any re-assignment of it in the iteration")
+			} else {
+				c.bad("C06-R5", key, p.relFile(call.Pos()), "Sample.Location is re-assigned ("+bad+") before focusedAndNotIgnored looks at it")
+			}
+		}
+	}
+	if n == 0 {
+		c.undecided("C06-R5", "select-on-original", p.relFile(byName.Pos()), "FilterSamplesByName no longer calls focusedAndNotIgnored")
+	}
+}
+
+// rangeComparesScaledValues (R6): numeric tag ranges compare the label value scaled to the
+// expression's unit with the expression's value as they are (floating point).  A
+// conversion to an integer in such a comparison truncates: with tagfocus=1kb every value
+// from 1024 to 2047 bytes would count as equal to 1kb.
+func (c *Check) rangeComparesScaledValues() {
+	p := c.P
+	f := c.anchorFn("C06-R6", "internal/driver", "parseTagFilterRange")
+	if f == nil {
+		return
+	}
+	n := 0
+	forEachFuncAndAnon(f, func(g *ssa.Function) {
+		if g == f {
+			return
+		}
+		for _, b := range g.Blocks {
+			for _, ins := range b.Instrs {
+				cmp, ok := ins.(*ssa.BinOp)
+				if !ok {
+					continue
+				}
+				switch cmp.Op {
+				case token.EQL, token.NEQ, token.LSS, token.LEQ, token.GTR, token.GEQ:
+				default:
+					continue
+				}
+				isNum := func(v ssa.Value) bool {
+					bt, ok := v.Type().Underlying().(*types.Basic)
+					return ok && bt.Info()&types.IsNumeric != 0
+				}
+				if !isNum(cmp.X) {
+					continue
+				}
+				n++
+				key := "range-compare:" + fnName(g) + ":" + cmp.Op.String()
+				trunc := false
+				for _, side := range []ssa.Value{cmp.X, cmp.Y} {
+					if cv, ok := side.(*ssa.Convert); ok {
+						from, ok1 := cv.X.Type().Underlying().(*types.Basic)
+						to, ok2 := cv.Type().Underlying().(*types.Basic)
+						if ok1 && ok2 && from.Info()&types.IsFloat != 0 && to.Info()&types.IsInteger != 0 {
+							trunc = true
+						}
+					}
+				}
+				if trunc {
+					c.bad("C06-R6", key, p.relFile(cmp.Pos()), "a numeric tag range predicate compares values after truncating them to integers: values that differ by less than one unit of the expression (1500 bytes against 1kb) compare as equal or fall on the wrong side of a bound")
+				} else {
+					c.ok("C06-R6", key, p.relFile(cmp.Pos()), "numeric tag range predicate compares the scaled values directly", "no float-to-integer conversion on either operand")
+				}
+			}
+		}
+	})
+	if n < 4 {
+		c.undecided("C06-R6", "range-compare", p.relFile(f.Pos()), fmt.Sprintf("expected the comparisons of the four range predicates, found %d", n))
+	}
 }
 
 // tagKeySplit (R3d): a tag filter "key=expr" is split at the first '=' only, so that the
